@@ -284,6 +284,21 @@ func c20Mutations(u *vfUnit, valid vfPkt) []c20Mut {
 		w.ID += d
 		out = append(out, c20Mut{kind: "wrong-id", body: w.Body()})
 	}
+	// the largest frame a peer may send, carrying counts that are absurd for it although they are not absurd
+	// as numbers: a bound that is loose by a constant factor only shows on big inputs
+	for _, cnt := range []uint32{2000000, 260000, 40000} {
+		big := []byte{rfAttrs}
+		big = binary.BigEndian.AppendUint32(big, valid.ID)
+		big = binary.BigEndian.AppendUint32(big, 0x80000000)
+		big = binary.BigEndian.AppendUint32(big, cnt)
+		big = append(big, make([]byte, 261000)...)
+		out = append(out, c20Mut{kind: "max-frame-count-lie", body: big})
+		nm := []byte{rfName}
+		nm = binary.BigEndian.AppendUint32(nm, valid.ID)
+		nm = binary.BigEndian.AppendUint32(nm, cnt)
+		nm = append(nm, make([]byte, 261000)...)
+		out = append(out, c20Mut{kind: "max-frame-count-lie", body: nm})
+	}
 	// a length prefix that promises far more than a frame may hold (and than is ever sent)
 	for _, l := range []uint32{262145, 1 << 20, 1 << 28, 1 << 30, 1<<31 - 1, 1<<32 - 1} {
 		lie := binary.BigEndian.AppendUint32(nil, l)
